@@ -90,8 +90,18 @@ func newSegment(path string, baseOffset, maxBytes int64, isNew bool, suffix stri
 	if isNew && exists(s.logPath()) {
 		return nil, ErrSegmentExists
 	}
-	log, err := os.OpenFile(s.logPath(), os.O_RDWR|os.O_CREATE|os.O_APPEND, 0644)
+	flags := os.O_RDWR | os.O_CREATE | os.O_APPEND
+	if isNew {
+		// Create the file exclusively so that, of two goroutines racing to
+		// roll the same segment, only one can win. Otherwise the loser would
+		// open the winner's files and remove them when it backs out.
+		flags |= os.O_EXCL
+	}
+	log, err := os.OpenFile(s.logPath(), flags, 0644)
 	if err != nil {
+		if isNew && os.IsExist(err) {
+			return nil, ErrSegmentExists
+		}
 		return nil, errors.Wrap(err, "open file failed")
 	}
 	info, err := log.Stat()
